@@ -268,8 +268,39 @@ fn docs(t: Tier) -> BoxedStrategy<Case> {
     doc_strategy(t, true).prop_map(Case::Doc).boxed()
 }
 
+/// One living object: written, then mutated / used, then written again - every write must read
+/// back as the object is *now* (a serialisation cached inside the object would go stale here).
+fn check_living(c: &super::c03::HCase, obs: &mut Obs) -> Verdict {
+    let mut obj = match super::c03::build_living(c) {
+        Ok(o) => o,
+        Err(e) => return Verdict::Fail(e),
+    };
+    obs.class(if c.in_index { "object-inside-index-section" } else { "object-top-level" });
+    let v = roundtrip(&obj, false, obs);
+    if !v.is_pass() {
+        return v;
+    }
+    let mut mutated = false;
+    for (k, op) in c.ops.iter().enumerate() {
+        if let Err(e) = super::c03::apply_hop(&mut obj, op, obs) {
+            return Verdict::Fail(format!("op {k} {e}"));
+        }
+        mutated |= super::c03::hop_mutates(op);
+        match roundtrip(&obj, false, obs) {
+            Verdict::Pass => {}
+            Verdict::Fail(m) => return Verdict::Fail(format!("after op {k} {op:?} (ops so far {:?}): {m}", &c.ops[..=k])),
+            other => return other,
+        }
+    }
+    if mutated && c.ops.len() >= 3 && c.base.tokens.len() >= 2 {
+        obs.nontrivial();
+    }
+    Verdict::Pass
+}
+
 fn subs() -> Vec<Sub> {
     vec![
+        gen_sub("living_object", super::c03::living, |t| t.pick(8_000, 160_000), check_living),
         gen_sub("large_regular", large, |t| t.pick(150, 3_000), check),
         gen_sub("deep_nesting", deep, |t| t.pick(600, 12_000), check),
         gen_sub("crowded_positions", crowded, |t| t.pick(4_000, 80_000), check),
